@@ -451,6 +451,7 @@ package mod
 //@   requires res != nil
 //@   modifies *res
 //@   ensures empty-means-not-given: imp(s == "", result == nil && *res == old(*res))
+//@   at call:json.Unmarshal assert the-given-list-decoded-straight-into-the-callers-slot: typeis(arg1, *[]string) && arg1.(*[]string) == res && string(arg0) == s
 //@ func (*ChangesModule).Connect
 //@   requires declare != nil && c != nil && len(args) >= 3
 //@   modifies nothing
